@@ -24,7 +24,7 @@ ASSUMPTIONS = [
     'controller_MPI flavour of this property is exercised by C08; controller_ParaDiag_nonMPI is not simulated here',
 ]
 PROBES = ['restart_at_later_slot', 'restart_near_Tend', 'same_step_restarted_twice', 'partial_last_block', 'step_size_changed',
-          'two_steps_same_end_time', 'run_aborted_ConvergenceError', 'fixed_step_run']
+          'two_steps_same_end_time', 'run_aborted_ConvergenceError', 'fixed_step_run', 'continuation_leg_on_same_controller', 'forced_stop_on_later_step']
 
 
 def plan(tier):
@@ -41,8 +41,11 @@ def generate(seed, tier, index):
 def execute(sc):
     res, log = Result(), EventLog()
     tr = blocksim.run(sc, res, log)
-    oracles.oracle_c06(tr, sc)
-    oracles.probes_c06(tr, sc)
+    for leg in tr.legs:
+        oracles.oracle_c06(leg, sc)
+        oracles.probes_c06(leg, sc)
+    if len(tr.legs) > 1:
+        res.probe('continuation_leg_on_same_controller')
     res['nontrivial'] = len(tr.ctx.blocks) >= 3 or any(k in res['faults'] for k in ('restart_request', 'dt_proposal'))
     return res.finish(log)
 
